@@ -1,83 +1,379 @@
-// NOT REGISTERED (measured): this harness - Tokens::next_token on two-character texts
-// <digit or letter><candidate character>, first character symbolic - was still in symbolic
-// execution after 15 min at 5 GB per arm: char::is_alphanumeric / is_whitespace on a symbolic
-// character walk the Unicode tables (skip_search unwound ~900 times), and the 37-entry operator
-// table is scanned with starts_with. The text tokenizer therefore stays outside the C03 claim
-// (seed C03-tokenizer-byte-slice-panic is missed).
-// C03 — the text tokenizer on two-character inputs (injected under yash-arith/src/token.rs).
-// "No expression text, however malformed, makes the shell panic": decided for every text of
-// the form <ASCII digit or letter><c>, c from a list of 20 candidate characters (arm-concrete:
-// digits, letters, the hex marker, operators, white space, and multi-byte characters of 2, 3
-// and 4 bytes), the first character symbolic. Arbitrary text is outside (two fully symbolic
-// bytes: no answer in 20 min).
+// C03 — the text tokenizer (injected under yash-arith/src/token.rs, cfg(kani) only).
+//
+// Decided here, on the real `Tokens::next_token`:
+//  * totality ("no expression text, however malformed, makes the shell panic") and the token
+//    protocol for EVERY text of <= 2 (thorough: 3) characters, each character any Unicode scalar
+//    value: every call returns a token or an error, token ranges are non-empty, in order, inside the
+//    text and on character boundaries, the end-of-input token comes last, and the kind of the token
+//    is the one its first character determines (digit -> constant or InvalidNumericConstant, never a
+//    variable; letter / underscore -> variable named by exactly that word; operator characters -> the
+//    operator spelled by the range);
+//  * numeric constants: for every decimal / octal / hexadecimal constant of up to 20 / 23 / 18
+//    characters (digits symbolic) the value is the exact mathematical value if it is representable
+//    in i64 and the documented error otherwise (never a wrapped value), also when one of the
+//    characters is an ASCII letter that is not a digit of the radix.
+//
+// Stubs (part of the claim): core::unicode::unicode_data::{alphabetic,n}::lookup - the Unicode
+// table walks behind char::is_alphanumeric for characters above U+007F - return an ARBITRARY bool
+// per call (over-approximation: every real table is one of the behaviours explored). ASCII
+// classification, white-space classification, UTF-8 decoding, str slicing, starts_with,
+// from_str_radix and str::parse are the real std code as compiled by Kani.
+//
+// The character widths (UTF-8 lengths) are arm-concrete: one harness per width tuple, so that the
+// text length is concrete (shape split, DESIGN.md §3); the characters are symbolic within the width.
 
 use super::*;
 
-const SECOND: [&str; 20] = ["0", "9", "a", "x", "X", "_", "+", "=", " ", "\t", "(", "~", "$", "é", "я", "あ", "€", "\u{3000}", "😀", "٣"];
+pub fn any_bool_for_non_ascii(c: char) -> bool {
+    let r: bool = kani::any();
+    // the real tables are only consulted above U+007F; below they answer false for non-letters
+    if (c as u32) < 0x80 { c.is_ascii_alphanumeric() } else { r }
+}
 
-fn check(second: &'static str) {
-    let first: u8 = kani::any();
-    kani::assume(first.is_ascii_digit() || first == b'a' || first == b'z' || first == b'_');
-    let mut buf = [0u8; 8];
-    buf[0] = first;
-    let sb = second.as_bytes();
+fn put(buf: &mut [u8; 16], at: usize, w: usize) -> char {
+    let c: char = kani::any();
+    kani::assume(c.len_utf8() == w);
+    let mut tmp = [0u8; 4];
+    c.encode_utf8(&mut tmp);
     let mut i = 0;
-    while i < sb.len() {
-        buf[1 + i] = sb[i];
+    while i < w {
+        buf[at + i] = tmp[i];
         i += 1;
     }
-    let text = unsafe { std::str::from_utf8_unchecked(&buf[..1 + sb.len()]) };
+    c
+}
+
+fn is_operator_char(c: char) -> bool {
+    matches!(c, '?' | ':' | '|' | '^' | '&' | '=' | '!' | '<' | '>' | '+' | '-' | '*' | '/' | '%' | '~' | '(' | ')')
+}
+
+/// Length of the longest C operator at the start of `s` (s[0] is an operator character).
+fn operator_len(s: &[u8]) -> usize {
+    let c1 = if s.len() > 1 { s[1] } else { 0 };
+    let c2 = if s.len() > 2 { s[2] } else { 0 };
+    match (s[0], c1) {
+        (b'<', b'<') | (b'>', b'>') => if c2 == b'=' { 3 } else { 2 },
+        (b'|', b'|') | (b'&', b'&') | (b'+', b'+') | (b'-', b'-') => 2,
+        (b'|', b'=') | (b'^', b'=') | (b'&', b'=') | (b'=', b'=') | (b'!', b'=') | (b'<', b'=') | (b'>', b'=')
+        | (b'+', b'=') | (b'-', b'=') | (b'*', b'=') | (b'/', b'=') | (b'%', b'=') => 2,
+        _ => 1,
+    }
+}
+
+fn spell(op: Operator) -> &'static str {
+    use Operator::*;
+    match op {
+        Question => "?", Colon => ":", Bar => "|", BarBar => "||", BarEqual => "|=", Caret => "^", CaretEqual => "^=",
+        And => "&", AndAnd => "&&", AndEqual => "&=", Equal => "=", EqualEqual => "==", Bang => "!", BangEqual => "!=",
+        Less => "<", LessEqual => "<=", LessLess => "<<", LessLessEqual => "<<=", Greater => ">", GreaterEqual => ">=",
+        GreaterGreater => ">>", GreaterGreaterEqual => ">>=", Plus => "+", PlusPlus => "++", PlusEqual => "+=",
+        Minus => "-", MinusMinus => "--", MinusEqual => "-=", Asterisk => "*", AsteriskEqual => "*=", Slash => "/",
+        SlashEqual => "/=", Percent => "%", PercentEqual => "%=", Tilde => "~", OpenParen => "(", CloseParen => ")",
+    }
+}
+
+/// Every text whose characters have the UTF-8 widths `ws`; with `fixed_first` the first character is
+/// that concrete ASCII character (representatives of the token classes) and only the others are symbolic.
+fn totality(ws: &[usize], fixed_first: Option<char>) {
+    let mut buf = [0u8; 16];
+    let mut len = 0;
+    let mut first = ' ';
+    let mut k = 0;
+    while k < ws.len() {
+        let c = match fixed_first {
+            Some(f) if k == 0 => {
+                buf[0] = f as u8;
+                f
+            }
+            _ => put(&mut buf, len, ws[k]),
+        };
+        if k == 0 {
+            first = c;
+        }
+        len += ws[k];
+        k += 1;
+    }
+    let text = unsafe { std::str::from_utf8_unchecked(&buf[..len]) };
     let mut tokens = Tokens::new(text);
-    // totality: a token or an error, never a panic; and the reported range lies in the text
+    let mut prev_end = 0usize;
+    let mut n = 0;
+    let mut ended = false;
+    // at most one token per character, then the end-of-input token
+    while n <= ws.len() {
+        let r = tokens.next_token();
+        match &r {
+            Ok(t) => {
+                assert!(t.location.start >= prev_end && t.location.end <= text.len(), "C03 token range in order and within the text");
+                assert!(text.is_char_boundary(t.location.start) && text.is_char_boundary(t.location.end), "C03 token range on character boundaries");
+                match &t.value {
+                    TokenValue::EndOfInput => {
+                        assert!(t.location.start == t.location.end, "C03 end-of-input token is empty");
+                        ended = true;
+                    }
+                    TokenValue::Operator(op) => {
+                        assert!(t.location.end > t.location.start, "C03 tokenizer makes progress");
+                        let rest = &text.as_bytes()[t.location.start..];
+                        assert!(is_operator_char(rest[0] as char), "C03 operator token starts with an operator character");
+                        // longest match, written from the C token list (not from the OPERATORS table)
+                        let want = operator_len(rest);
+                        assert!(t.location.end - t.location.start == want, "C03 operator token is the longest operator at that position");
+                        assert!(spell(*op).as_bytes() == &rest[..want], "C03 operator token denotes the operator spelled in the text");
+                    }
+                    TokenValue::Term(Term::Value(_)) => {
+                        assert!(t.location.end > t.location.start, "C03 tokenizer makes progress");
+                        let c = text[t.location.start..].chars().next().unwrap();
+                        assert!(c.is_ascii_digit(), "C03 constant starts with a digit");
+                    }
+                    TokenValue::Term(Term::Variable { name, location }) => {
+                        assert!(t.location.end > t.location.start, "C03 tokenizer makes progress");
+                        assert!(*location == t.location, "C03 variable location is the token location");
+                        assert!(name.len() == t.location.end - t.location.start, "C03 variable name is the token text");
+                        let c = text[t.location.start..].chars().next().unwrap();
+                        assert!(!c.is_ascii_digit() && !is_operator_char(c) && !c.is_whitespace(), "C03 variable does not start with a digit, operator or blank");
+                    }
+                }
+                if n == 0 && !first.is_whitespace() {
+                    // the first character determines the kind of the first token
+                    if first.is_ascii_digit() {
+                        assert!(matches!(t.value, TokenValue::Term(Term::Value(_))), "C03 digit-initial word is a constant or an error");
+                    } else if is_operator_char(first) {
+                        assert!(matches!(t.value, TokenValue::Operator(_)), "C03 operator character starts an operator");
+                    } else if first.is_ascii_alphabetic() || first == '_' {
+                        assert!(matches!(t.value, TokenValue::Term(Term::Variable { .. })), "C03 letter starts a variable");
+                    }
+                    assert!(t.location.start == 0, "C03 first token starts at the first non-blank character");
+                }
+                prev_end = t.location.end;
+            }
+            Err(e) => {
+                assert!(e.location.start >= prev_end && e.location.start < text.len(), "C03 error range starts inside the text");
+                if n == 0 && (first.is_ascii_alphabetic() || first == '_' || is_operator_char(first)) {
+                    panic!("C03 a word or operator is not an error");
+                }
+                kani::cover!(true, "tokenizer error reachable");
+                ended = true;
+            }
+        }
+        std::mem::forget(r);
+        if ended {
+            break;
+        }
+        n += 1;
+    }
+    assert!(ended, "C03 tokenizer reaches the end of the text or an error within one token per character");
+    kani::cover!(ended, "each: end of the text or an error reached");
+}
+
+macro_rules! tot {
+    ($name:ident, $ws:expr) => {
+        #[kani::proof] // unwinding bounds are passed per harness (text length + 3; operator table: 39)
+        #[kani::stub(core::unicode::unicode_data::alphabetic::lookup, any_bool_for_non_ascii)]
+        #[kani::stub(core::unicode::unicode_data::n::lookup, any_bool_for_non_ascii)]
+        fn $name() {
+            totality(&$ws, None);
+        }
+    };
+    ($name:ident, $ws:expr, $first:expr) => {
+        #[kani::proof]
+        #[kani::stub(core::unicode::unicode_data::alphabetic::lookup, any_bool_for_non_ascii)]
+        #[kani::stub(core::unicode::unicode_data::n::lookup, any_bool_for_non_ascii)]
+        fn $name() {
+            totality(&$ws, Some($first));
+        }
+    };
+}
+tot!(c03_text_w1, [1]);
+tot!(c03_text_w2, [2]);
+tot!(c03_text_w3, [3]);
+tot!(c03_text_w4, [4]);
+// first character concrete (a representative of each token class), the rest symbolic
+tot!(c03_text_one_w1, [1, 1], '1');
+tot!(c03_text_one_w2, [1, 2], '1');
+tot!(c03_text_one_w3, [1, 3], '1');
+tot!(c03_text_one_w4, [1, 4], '1');
+tot!(c03_text_one_w11, [1, 1, 1], '1'); // @thorough
+tot!(c03_text_one_w12, [1, 1, 2], '1'); // @thorough
+tot!(c03_text_one_w21, [1, 2, 1], '1'); // @thorough
+tot!(c03_text_zero_w1, [1, 1], '0');
+tot!(c03_text_zero_w2, [1, 2], '0');
+tot!(c03_text_zero_w3, [1, 3], '0');
+tot!(c03_text_zero_w4, [1, 4], '0');
+tot!(c03_text_zero_w11, [1, 1, 1], '0'); // @thorough
+tot!(c03_text_zero_w12, [1, 1, 2], '0'); // @thorough
+tot!(c03_text_zero_w21, [1, 2, 1], '0'); // @thorough
+tot!(c03_text_a_w1, [1, 1], 'a');
+tot!(c03_text_a_w2, [1, 2], 'a');
+tot!(c03_text_a_w3, [1, 3], 'a');
+tot!(c03_text_a_w4, [1, 4], 'a');
+tot!(c03_text_a_w11, [1, 1, 1], 'a'); // @thorough
+tot!(c03_text_a_w12, [1, 1, 2], 'a'); // @thorough
+tot!(c03_text_a_w21, [1, 2, 1], 'a'); // @thorough
+tot!(c03_text_us_w1, [1, 1], '_');
+tot!(c03_text_us_w2, [1, 2], '_');
+tot!(c03_text_us_w3, [1, 3], '_');
+tot!(c03_text_us_w4, [1, 4], '_');
+tot!(c03_text_us_w11, [1, 1, 1], '_'); // @thorough
+tot!(c03_text_us_w12, [1, 1, 2], '_'); // @thorough
+tot!(c03_text_us_w21, [1, 2, 1], '_'); // @thorough
+tot!(c03_text_plus_w1, [1, 1], '+');
+tot!(c03_text_plus_w2, [1, 2], '+');
+tot!(c03_text_plus_w3, [1, 3], '+');
+tot!(c03_text_plus_w4, [1, 4], '+');
+tot!(c03_text_plus_w11, [1, 1, 1], '+'); // @thorough
+tot!(c03_text_plus_w12, [1, 1, 2], '+'); // @thorough
+tot!(c03_text_plus_w21, [1, 2, 1], '+'); // @thorough
+tot!(c03_text_lt_w1, [1, 1], '<');
+tot!(c03_text_lt_w2, [1, 2], '<');
+tot!(c03_text_lt_w3, [1, 3], '<');
+tot!(c03_text_lt_w4, [1, 4], '<');
+tot!(c03_text_lt_w11, [1, 1, 1], '<'); // @thorough
+tot!(c03_text_lt_w12, [1, 1, 2], '<'); // @thorough
+tot!(c03_text_lt_w21, [1, 2, 1], '<'); // @thorough
+tot!(c03_text_sp_w1, [1, 1], ' ');
+tot!(c03_text_sp_w2, [1, 2], ' ');
+tot!(c03_text_sp_w3, [1, 3], ' ');
+tot!(c03_text_sp_w4, [1, 4], ' ');
+tot!(c03_text_sp_w11, [1, 1, 1], ' '); // @thorough
+tot!(c03_text_sp_w12, [1, 1, 2], ' '); // @thorough
+tot!(c03_text_sp_w21, [1, 2, 1], ' '); // @thorough
+tot!(c03_text_dollar_w1, [1, 1], '$');
+tot!(c03_text_dollar_w2, [1, 2], '$');
+tot!(c03_text_dollar_w3, [1, 3], '$');
+tot!(c03_text_dollar_w4, [1, 4], '$');
+tot!(c03_text_dollar_w11, [1, 1, 1], '$'); // @thorough
+tot!(c03_text_dollar_w12, [1, 1, 2], '$'); // @thorough
+tot!(c03_text_dollar_w21, [1, 2, 1], '$'); // @thorough
+// all characters symbolic
+tot!(c03_text_w11, [1, 1]); // @thorough
+tot!(c03_text_w12, [1, 2]); // @thorough
+tot!(c03_text_w13, [1, 3]); // @thorough
+tot!(c03_text_w14, [1, 4]); // @thorough
+tot!(c03_text_w21, [2, 1]); // @thorough
+tot!(c03_text_w22, [2, 2]); // @thorough
+tot!(c03_text_w31, [3, 1]); // @thorough
+tot!(c03_text_w41, [4, 1]); // @thorough
+tot!(c03_text_w111, [1, 1, 1]); // @thorough
+tot!(c03_text_w112, [1, 1, 2]); // @thorough
+tot!(c03_text_w113, [1, 1, 3]); // @thorough
+tot!(c03_text_w121, [1, 2, 1]); // @thorough
+tot!(c03_text_w211, [2, 1, 1]); // @thorough
+tot!(c03_text_w1111, [1, 1, 1, 1]); // @thorough
+
+// ---------------------------------------------------------------------------------------------
+// numeric constants
+
+fn digit_value(b: u8) -> u32 {
+    match b {
+        b'0'..=b'9' => (b - b'0') as u32,
+        b'a'..=b'z' => (b - b'a') as u32 + 10,
+        b'A'..=b'Z' => (b - b'A') as u32 + 10,
+        _ => 99,
+    }
+}
+
+/// `prefix` + `nd` symbolic word characters (ASCII letters / digits), optionally followed by `tail`.
+/// Oracle: the value in u128; a character that is not a digit of the radix makes the constant invalid.
+fn constant(prefix: &'static str, radix: u32, nd: usize, tail: &'static str, digits_only: bool) {
+    let mut buf = [0u8; 32];
+    let pb = prefix.as_bytes();
+    let mut len = 0;
+    while len < pb.len() {
+        buf[len] = pb[len];
+        len += 1;
+    }
+    let mut exact: u128 = 0;
+    let mut valid = true;
+    let mut i = 0;
+    while i < nd {
+        let b: u8 = kani::any();
+        if digits_only {
+            kani::assume(digit_value(b) < radix);
+        } else {
+            kani::assume(b.is_ascii_alphanumeric());
+        }
+        // a decimal constant starts with a digit other than 0 (0 would make it octal); after the octal
+        // prefix "0" an x / X would turn the word into a hexadecimal constant (covered by the hex harnesses)
+        if i == 0 && radix == 10 {
+            kani::assume(b.is_ascii_digit() && b != b'0');
+        }
+        if i == 0 && radix == 8 {
+            kani::assume(b != b'x' && b != b'X');
+        }
+        buf[len] = b;
+        len += 1;
+        let d = digit_value(b);
+        if d >= radix {
+            valid = false;
+        } else {
+            exact = exact * radix as u128 + d as u128;
+        }
+        i += 1;
+    }
+    let word_len = len;
+    let tb = tail.as_bytes();
+    let mut j = 0;
+    while j < tb.len() {
+        buf[len] = tb[j];
+        len += 1;
+        j += 1;
+    }
+    // "0x" followed by nothing is not a constant
+    if radix == 16 && nd == 0 {
+        valid = false;
+    }
+    let text = unsafe { std::str::from_utf8_unchecked(&buf[..len]) };
+    let mut tokens = Tokens::new(text);
     let r = tokens.next_token();
     match &r {
         Ok(t) => {
-            assert!(t.location.start <= t.location.end && t.location.end <= text.len(), "C03 token range within the text");
-            if first.is_ascii_digit() && matches!(sb[0], b'+' | b'=' | b' ' | b'\t' | b'(' | b'~') {
-                let want = (first - b'0') as i64;
-                assert!(matches!(&t.value, TokenValue::Term(Term::Value(Value::Integer(v))) if *v == want), "C03 a digit followed by a non-word character is that constant");
+            assert!(t.location == (0..word_len), "C03 constant token covers the whole word");
+            match &t.value {
+                TokenValue::Term(Term::Value(Value::Integer(v))) => {
+                    assert!(valid, "C03 malformed constant accepted as a value");
+                    assert!(exact <= i64::MAX as u128, "C03 unrepresentable constant returned as a (wrapped) value");
+                    assert!(*v as i128 == exact as i128, "C03 constant has its exact mathematical value");
+                }
+                _ => panic!("C03 digit-initial word must be a constant or an error"),
             }
         }
         Err(e) => {
-            assert!(e.location.start <= e.location.end, "C03 error range");
-            // a digit-initial word that is not a valid constant is an error, not a variable
-            assert!(first.is_ascii_digit() || !sb[0].is_ascii(), "C03 only malformed constants and foreign characters are errors here");
+            assert!(!valid || exact > i64::MAX as u128, "C03 valid representable constant rejected");
+            assert!(matches!(e.cause, TokenError::InvalidNumericConstant), "C03 error kind for a bad constant");
+            assert!(e.location == (0..word_len), "C03 error location covers the word");
         }
     }
-    let r2 = tokens.next_token();
-    kani::cover!(r.is_err(), "tokenizer error reachable");
-    kani::cover!(r.is_ok(), "token reachable");
+    kani::cover!(r.is_ok(), "value reachable");
+    kani::cover!(r.is_err() && valid, "overflowing constant reachable");
     std::mem::forget(r);
-    std::mem::forget(r2);
 }
 
-macro_rules! tok {
-    ($name:ident, $i:expr) => {
-        #[kani::proof]
-        #[kani::unwind(40)] // the operator table has 37 entries
+macro_rules! cst {
+    ($name:ident, $prefix:expr, $radix:expr, $nd:expr, $tail:expr, $digits_only:expr) => {
+        #[kani::proof] // unwinding bounds are passed per harness (word length + 3; operator table: 39)
+        #[kani::stub(core::unicode::unicode_data::alphabetic::lookup, any_bool_for_non_ascii)]
+        #[kani::stub(core::unicode::unicode_data::n::lookup, any_bool_for_non_ascii)]
         fn $name() {
-            check(SECOND[$i]);
+            constant($prefix, $radix, $nd, $tail, $digits_only);
             kani::cover!(true, "each: reached");
         }
     };
 }
-tok!(c03_token_00, 0);
-tok!(c03_token_01, 1);
-tok!(c03_token_02, 2);
-tok!(c03_token_03, 3);
-tok!(c03_token_04, 4);
-tok!(c03_token_05, 5);
-tok!(c03_token_06, 6);
-tok!(c03_token_07, 7);
-tok!(c03_token_08, 8);
-tok!(c03_token_09, 9);
-tok!(c03_token_10, 10);
-tok!(c03_token_11, 11);
-tok!(c03_token_12, 12);
-tok!(c03_token_13, 13);
-tok!(c03_token_14, 14);
-tok!(c03_token_15, 15);
-tok!(c03_token_16, 16);
-tok!(c03_token_17, 17);
-tok!(c03_token_18, 18);
-tok!(c03_token_19, 19);
+// hexadecimal: 2^63 = 0x8000000000000000 (16 digits); 17 digits overflow unless the first is 0
+cst!(c03_const_hex_0, "0x", 16, 0, "", true);
+cst!(c03_const_hex_1, "0X", 16, 1, "+", true);
+cst!(c03_const_hex_15, "0x", 16, 15, "", true);
+cst!(c03_const_hex_16, "0x", 16, 16, "", true);
+cst!(c03_const_hex_16u, "0X", 16, 16, " ", true);
+cst!(c03_const_hex_17, "0x", 16, 17, "", true);
+cst!(c03_const_hex_any_3, "0x", 16, 3, "", false);
+// decimal: 2^63 = 9223372036854775808 (19 digits)
+cst!(c03_const_dec_1, "", 10, 1, "", true);
+cst!(c03_const_dec_18, "", 10, 18, "", true);
+cst!(c03_const_dec_19, "", 10, 19, "", true);
+cst!(c03_const_dec_20, "", 10, 20, ")", true);
+cst!(c03_const_dec_any_3, "", 10, 3, "", false);
+// octal: 2^63 = 0o1000000000000000000000 (22 digits)
+cst!(c03_const_oct_0, "0", 8, 0, "", true);
+cst!(c03_const_oct_21, "0", 8, 21, "", true);
+cst!(c03_const_oct_22, "0", 8, 22, "", true);
+cst!(c03_const_oct_any_3, "0", 8, 3, "*", false);
